@@ -20,6 +20,44 @@ def Item.isTask : Item → Bool
   | .task _ => true
   | _ => false
 
+/-- a program counter that holds no queue ticket and is not inside `try_pop` -/
+def Pc.plain (p : Pc) : Prop :=
+  p.pubTicket = none ∧ (∀ i, p ≠ .wGWait i) ∧ (∀ q k, p ≠ .gPub q k) ∧ (∀ ctx i b, p ≠ .chk ctx i b) ∧
+  (∀ id cid q, p ≠ .rLPub id cid q)
+
+theorem plain_dispatchPc (x : Item) : (dispatchPc x).plain := by
+  cases x <;> simp [Pc.plain, dispatchPc, Pc.pubTicket]
+theorem plain_claimPc (ctx : PopCtx) (x : Item) : (claimPc ctx x).plain := by
+  cases ctx <;> cases x <;> simp [Pc.plain, claimPc, dispatchPc, Pc.pubTicket]
+theorem plain_onEmpty (ctx : PopCtx) : ctx.onEmpty.plain := by
+  cases ctx <;> simp [Pc.plain, PopCtx.onEmpty, Pc.pubTicket]
+theorem plain_markChain (c : Cfg) (n : Nat) : (markChain c n).plain := by
+  rcases markChain_cases c n with h | h | ⟨m, h⟩ <;> simp [h, Pc.plain, Pc.pubTicket]
+theorem plain_afterStore (c : Cfg) : (afterStore c).plain := by
+  unfold afterStore; split
+  · simp [Pc.plain, Pc.pubTicket]
+  · exact plain_markChain c _
+theorem plain_cont (c : Cfg) (x : Option Item) (k : Pc) (h : ContOK c x k) : k.plain := by
+  cases k <;> first
+    | (simp [Pc.plain, Pc.pubTicket]; done)
+    | (obtain ⟨_, n, hn⟩ := h; rw [hn]; exact plain_markChain c n)
+
+theorem afterEmpty_dispatchPc (x : Item) : (dispatchPc x).afterEmpty = (x == .stop) := by cases x <;> rfl
+theorem afterEmpty_claimPc_task (ctx : PopCtx) (id : Nat) : (claimPc ctx (.task id)).afterEmpty = false := by
+  cases ctx <;> rfl
+theorem afterEmpty_onEmpty (ctx : PopCtx) : ctx.onEmpty.afterEmpty = (ctx.role == .worker) := by cases ctx <;> rfl
+theorem afterEmpty_markChain (c : Cfg) (n : Nat) : (markChain c n).afterEmpty = false := by
+  rcases markChain_cases c n with h | h | ⟨m, h⟩ <;> simp [h, Pc.afterEmpty]
+theorem afterEmpty_afterStore (c : Cfg) : (afterStore c).afterEmpty = false := by
+  unfold afterStore; split
+  · rfl
+  · exact afterEmpty_markChain c _
+theorem afterEmpty_cont (c : Cfg) (x : Option Item) (k : Pc) (h : ContOK c x k) : k.afterEmpty = false := by
+  cases k <;> first
+    | rfl
+    | (obtain ⟨_, n, hn⟩ := h; rw [hn]; exact afterEmpty_markChain c n)
+theorem isTask_iff (x : Item) : x.isTask = true ↔ ∃ id, x = .task id := by cases x <;> simp [Item.isTask]
+
 structure Inv2 (c : Cfg) (s : State) : Prop where
   /-- local queues -/
   l0 : ∀ k, (s.l k).popIdx ≤ (s.l k).cells.length
@@ -31,6 +69,7 @@ structure Inv2 (c : Cfg) (s : State) : Prop where
         (s.l k).cells[p]? = some ⟨.task cid, .reserved⟩
   l6 : ∀ w k i, s.pc w = .chk .own i true → s.own w = some k → (s.l k).popIdx = i → (s.l k).cells.length ≤ i
   l7 : ∀ w k, (s.pc w).afterEmpty = true → s.owner k = some w → (s.l k).cells.length ≤ (s.l k).popIdx
+  l8 : ∀ w k ctx i nr, s.pc w = .chk ctx i nr → ctx.queue s w = some k → i ≤ (s.l k).popIdx
   /-- global queue -/
   g0 : ∀ (i : Nat) (cl : Cell), s.g.cells[i]? = some cl → s.g.popIdx ≤ i → cl.st ≠ .free
   g1 : ∀ i : Nat, i < s.g.popIdx → s.g.stAt i = some .free ∨ ∃ w, s.pc w = .wGWait i
@@ -48,7 +87,7 @@ theorem init_pc (c : Cfg) (t : Nat) :
 
 theorem Inv2.init (c : Cfg) : Inv2 c (State.init c) := by
   have hp := init_pc c
-  refine ⟨?_, ?_, ?_, ?_, ?_, ?_, ?_, ?_, ?_, ?_, ?_, ?_, ?_⟩
+  refine ⟨?_, ?_, ?_, ?_, ?_, ?_, ?_, ?_, ?_, ?_, ?_, ?_, ?_, ?_⟩
   · intro k; simp [State.init]
   · intro k i cl h; simp [State.init] at h
   · intro k i w h; simp [State.init, Q.stAt] at h
@@ -57,6 +96,7 @@ theorem Inv2.init (c : Cfg) : Inv2 c (State.init c) := by
   · intro w id cid p k h; rcases hp w with h1 | h1 | h1 <;> rw [h1] at h <;> cases h
   · intro w k i h; rcases hp w with h1 | h1 | h1 <;> rw [h1] at h <;> cases h
   · intro w k _ h; simp [State.init] at h
+  · intro w k ctx i nr h; rcases hp w with h1 | h1 | h1 <;> rw [h1] at h <;> cases h
   · intro i cl h; simp [State.init] at h
   · intro i h; simp [State.init] at h
   · intro w i h; rcases hp w with h1 | h1 | h1 <;> rw [h1] at h <;> cases h
